@@ -557,6 +557,16 @@ theorem C03_identifier_uses :
     (0, [.idTextEqOnly, .idTextEqOnly]) := by decide
 
 open Primaite.Gen.Nondet in
+/-- **Gen obligation: an order that is "irrelevant for X" is consumed only by X.** The discharge of the neighbour-set iteration in
+`topological_sort` (`setTopo`) says: every dependencies-first order computes the same REWARDS (`evalRewards_order_indep`,
+`C10_graph_order_irrelevant`). That discharges the site only if the order it produces — `PrimaiteGame._reward_calculation_order`, the
+one attribute assigned from a function with a set-iteration site — is read by the reward loop of `update_agents` and by nothing else,
+neither directly nor through a helper that returns / yields it. A second consumer (e.g. the loop in which the agents ACT, hence draw
+from the seeded generators) breaks this. -/
+theorem C03_gen_order_consumers :
+    orderUses = [ ("_reward_calculation_order", "topological_sort", [("game/game.py", "PrimaiteGame.update_agents")]) ] := by decide
+
+open Primaite.Gen.Nondet in
 /-- **Gen obligation (F-9 repair).** The datetime-typed model fields of the tree are exactly these five; the three that are part of a
 frame's JSON (`Frame.sent_timestamp`, `Frame.received_timestamp`, `NTPReply.ntp_datetime`) have a JSON serialiser that returns
 `isoformat(timespec='microseconds')` (constant 26 characters); the other two (`NTPClient.time`, `TerminalClientConnection.time`) are
